@@ -5,7 +5,8 @@
        leaf  : a predeclared type, error, any, a named type of one of three packages (own / other / same-named clash),
                or an instantiation of a generic type with a basic or a named argument
        ptr, slice, array3, array0 (the boundary length), chan (bidirectional), mapS (map[string]E), mapK (map[K]E with a named key),
-       struct1 (one tagged field), struct2 (an embedded field and a plain field)
+       struct1 (one tagged field), struct2 (an embedded field and a plain field), struct3 (two plain fields: the same type
+       may occur twice in one expression)
    The law: the rendered text, type-checked in the target package with exactly the imports registered while rendering,
    is identical to the type it was rendered from; local types unqualified, foreign ones under their import name.
    Whether text denotes a type is decided by go/types in the conformance step (logged); the specification supplies the
@@ -16,7 +17,7 @@ CONSTANTS Depth, Leaves, Ctors, Targets, Views
 
 Leaf(id) == [k |-> "leaf", id |-> id, sub |-> <<>>]
 Node(c, sub) == [k |-> c, id |-> "", sub |-> sub]
-Arity(c) == IF c \in {"mapK", "struct2"} THEN 2 ELSE 1
+Arity(c) == IF c \in {"mapK", "struct2", "struct3"} THEN 2 ELSE 1
 
 RECURSIVE Trees(_)
 Trees(d) == IF d <= 1 THEN {Leaf(x) : x \in Leaves}
@@ -39,6 +40,9 @@ GenNone == FALSE /\ UNCHANGED <<tree, target, view>>
 
 (* which packages a tree mentions: exactly those - minus the target - must be imported *)
 PkgOfLeaf(id) == CASE id \in {"fixt.A", "fixt.AI", "fixt.Gen[int]", "fixt.Gen[fixt.A]"} -> {"fixt"}
+                   [] id = "subjson.J" -> {"subjson"}                 \* a package of the module that is called json
+                   [] id = "stdjson.RawMessage" -> {"stdjson"}        \* encoding/json
+                   [] id = "fixt.Gen[dotted.D]" -> {"fixt", "dotted"} \* the argument's package path ends in dotted.v3
                    [] id \in {"fixt2.B", "fixt2.BS"} -> {"fixt2"}
                    [] id \in {"clash.C"} -> {"clash"}
                    [] id = "fixt.Gen[fixt2.B]" -> {"fixt", "fixt2"}
